@@ -37,6 +37,21 @@ CHECKS = {
             "Scripts of up to 120 calls (clock edges in both step modes, key interrupt, continue, cpu/master reset, load, input and board setters with arbitrary f32 bit patterns incl. NaN/inf/subnormal, direct Bus::read/write on all addresses, direct Board calls, limit setters) run on machines loaded with I/O-biased, uniform or mixed images under all stack sizes and program-size settings; every call is wrapped in catch_unwind in a build with overflow checks and debug assertions, every public getter is read after every call, and the machine is stepped once more at the end.",
             "Trusted: Rust's panic/overflow detection as crash oracle. Stacksize::NotSet is never installed (documented precondition). Images above 240 bytes belong to C06.",
             "DESIGN.md §4 C13"),
+    "C07": ("exploration",
+            "stateful property testing over operation histories: after every prefix each reset kind is applied to a clone; invariants via getters + hook snapshot, metamorphic forgetting/retention relations between perturbed clones, differential lock-step of follow-up programs against a fresh machine",
+            "After every prefix of a generated history (loads with every stack/program-size setting incl. NOSET/AUTO, clock edges in both modes, key interrupts, continue, resets, input/board setters, writes to 0xF0-0xFF): CPU reset must give power-on registers/sequencer/latches/outputs/MICR with state Running and leave RAM, inputs, board, limits and step mode untouched; clones differing only in erasable state (outputs, MICR, UCR, registers; for master also inputs and timer) must become equal, clones differing in retained state (timer, RAM) must stay different; master reset must additionally zero inputs and the board's outputs/DAICR/fan/UIO directions but never RAM or physical inputs; load must do all that, install image+zeros and the limits, and the follow-up program must run edge-for-edge like on a fresh machine.",
+            "Trusted: hook snapshot for private latches. Board comparator/UIO/interrupt status bits and MISR after a reset are not constrained (statement silent).",
+            "DESIGN.md §4 C07"),
+    "C10": ("exploration",
+            "exhaustive enumeration (single writes, ordered write pairs, reads) plus model-based random histories against a map-based bus model",
+            "Every (address, byte) write from three base states, every ordered pair of write addresses followed by a read of all 256 addresses, and random histories of write/read/input/board-input/key-trigger operations are compared after every operation with a map-based model: RAM cells only change by writes to themselves, no write to 0xF0-0xFF changes RAM, inputs read at 0xFC-0xFF are what was set from outside and are immune to writes, FE/FF outputs change only by writes to 0xFE/0xFF, 0xF9 writes set the enable mask and never the status read there, 0xF0/0xF1 writes reach the board ports, reads of 0xF0/0xF1/0xF3 return the board's input port and status registers, and reads change nothing.",
+            "Trusted: the bus model in harness/src/props/c10.rs. Unmentioned addresses (0xF2 read, 0xF4-0xF8, 0xFA/0xFB, the value of the status bits) are only checked for having no effect on RAM/inputs/outputs/masks.",
+            "DESIGN.md §4 C10"),
+    "C14": ("exploration",
+            "model-based property testing: histories of port writes and external setters against a board reference model checked after every operation; threshold-neighbourhood enumeration; exhaustive 2^32 f32 sweep in thorough",
+            "After every operation of a generated history (writes to 0xF0-0xF3 with all byte values, voltage setters with exact thresholds b/100 +- 1 ulp, in-range, out-of-range, NaN/inf and raw bit patterns, jumpers, UIO pins, digital input) the board must show: clamped stored voltages, DAC voltage b/100, comparator bits per the f32 comparison (comparator 2 on max(input 2, temperature)), jumper bits and input port as applied, UIO pins visible iff configured as input, interrupt flip-flop and source flag raised exactly on the configured transition of the selected source by an external change or comparator move and never otherwise, and the fan period 255 - b within +-1.",
+            "Trusted: board model in harness/src/props/c14.rs. Comparator bit unconstrained within 1e-6 of a non-representable threshold; UOR effect on UIO bits and flag clearing unconstrained.",
+            "DESIGN.md §4 C14"),
     "C08": ("exploration",
             "exhaustive enumeration against a documented function table (differential oracle)",
             "All 2 097 152 ALU input points are enumerated in both tiers and compared (result, carry, zero, negative) with a function table written from the documentation in 16-bit arithmetic; any single-entry deviation of the ALU is detected.",
